@@ -6,16 +6,16 @@ wt=/tmp/wt-sweep/$id
 mkdir -p /tmp/wt-sweep /tmp/sweep-out/$id
 git -C /repo worktree remove --force $wt >/dev/null 2>&1
 git -C /repo worktree add --detach $wt HEAD >/dev/null 2>&1 || { echo "$id worktree-failed"; exit 2; }
-git -C $wt apply /verif/seeded/$id/patch.diff || { echo "$id apply-failed"; exit 2; }
+git -C $wt apply ${VERIF_DIR:-/verif}/seeded/$id/patch.diff || { echo "$id apply-failed"; exit 2; }
 for prop in "$@"; do
-  out=$(VERIF_REPO=$wt VERIF_OUT=/tmp/sweep-out/$id VERIF_MINIMISE_S=${VERIF_MINIMISE_S:-0} VERIF_NO_MINIMISE=${VERIF_NO_MINIMISE:-1} /verif/check $prop --tier quick 2>&1)
+  out=$(VERIF_REPO=$wt VERIF_OUT=/tmp/sweep-out/$id VERIF_MINIMISE_S=${VERIF_MINIMISE_S:-0} VERIF_NO_MINIMISE=${VERIF_NO_MINIMISE:-1} ${VERIF_DIR:-/verif}/check $prop --tier quick 2>&1)
   rc=$?
   v=$(echo "$out" | grep -m1 -A1 '^VIOLATION' | tr '\n' ' ' | cut -c1-300)
   rp=$(echo "$out" | grep -m1 '^VIOLATION' | sed 's/.*replay=//')
   extra=""
   if [ -n "$SWEEP_REPLAY" ] && [ -n "$rp" ]; then
-    r1=$(VERIF_REPO=$wt /verif/check $prop --replay $rp 2>&1); rc1=$?
-    r2=$(/verif/check $prop --replay $rp 2>&1); rc2=$?
+    r1=$(VERIF_REPO=$wt ${VERIF_DIR:-/verif}/check $prop --replay $rp 2>&1); rc1=$?
+    r2=$(${VERIF_DIR:-/verif}/check $prop --replay $rp 2>&1); rc2=$?
     m=$(echo "$r1" | grep -c 'signature matches')
     extra=" replay-on-mutant rc=$rc1 sigmatch=$m replay-on-clean rc=$rc2"
   fi
